@@ -182,7 +182,7 @@ def select_oracle(ids, want):
 )
 def select_by_identity(k0: int, a0: int, kk: int, k1: int, a1: int, k2: int, a2: int, w: int) -> str:
     other = (a0 + 1) % 3
-    texts = [member_text(0, k0, a0, kk, other), "~ %s: %s ~ $[*][ @m = 1 ]" % (KEYS[k1], IDS[a1]), "~ %s: %s ~ $[*][ @m = 2 ]" % (KEYS[k2], IDS[a2])]
+    texts = [member_text(0, k0, a0, kk, other), "~ checked at 10 : 30 %s: %s ~ $[*][ @m = 1 ]" % (KEYS[k1], IDS[a1]), "~ %s: %s ~ $[*][ @m = 2 ]" % (KEYS[k2], IDS[a2])]
     ids = [identity_of(k0, a0, kk, other), IDS[a1], IDS[a2]]
     want = IDS[w]
     one, frm, to = select_oracle(ids, want)
@@ -232,13 +232,13 @@ def _manifest(cs, name):
     pre=["0 <= c1 < 4 and 0 <= c2 < 4"],
     post="_ == ''",
     bound="group g gets content A, then content c1, then c2 (each one of 4 contents, one of them of the same length as A; symbolic; equal = identical re-add), each "
-    "step on the same or a new CsvPaths instance (symbolic): after every step get_named_paths returns the new members in order, the "
+    "step on the same or a new CsvPaths instance (symbolic); in the rm shard the group is removed before the second add: after every step get_named_paths returns the new members in order, the "
     "manifest grew by one entry iff the content changed, and its last entry fingerprints the stored group file",
     outside="remove operations; more than 3 contents; 2 group names",
     encodes=["csvpath/managers/paths/paths_manager.py:PathsManager.add_named_paths/_copy_in/get_named_paths", "csvpath/managers/paths/paths_registrar.py:PathsRegistrar.register_complete/metadata_update"],
-    tiers={"quick": {"timeout": 1800}},
+    tiers={"quick": {"timeout": 1800, "shards": product(rm=[False, True])}},
 )
-def manifest_steps(c1: int, n1: bool, c2: int, n2: bool) -> str:
+def manifest_steps(c1: int, n1: bool, c2: int, n2: bool, rm: bool = False) -> str:
     names = ["A", "B", "C", "D"]
     with NoTracing():
         root, cs = kitpaths.env({"g": V["A"]}, with_file=False)
@@ -252,6 +252,11 @@ def manifest_steps(c1: int, n1: bool, c2: int, n2: bool) -> str:
             content = names[c]
             with NoTracing():
                 inst = kitpaths.new_instance() if fresh_inst else cs
+            if rm and step == 0:
+                # the group is removed first: the next add starts a new manifest with one entry
+                inst.paths_manager.remove_named_paths("g")
+                count = 0
+                cur = None
             inst.paths_manager.add_named_paths(name="g", paths=V[content])
             with NoTracing():
                 got = [p.strip() for p in inst.paths_manager.get_named_paths("g")]
